@@ -39,19 +39,71 @@ def _tls_fact(facts, polarity_true):
     return False
 
 
-NO_CONTAINER = [('self._ssl_context_container', False), ('self._ssl_context_container is None', True)]
 
 
-def _context_cases(g, node, expr, attr, allowed_off):
-    """Every value expr can take at node is the container's <attr>, or None under one of the `allowed_off` facts; and the
-    context is passed in at least one case.  Decided on value_cases: conditional expressions, if statements and local
-    aliases all look the same there."""
+TLS_ATOMS = {'self._ssl_context_container': ('B', False), 'self._ssl_context_container is None': ('B', True),
+             'self.is_ssl_connection': ('A', False), 'use_ssl': ('U', False)}
+
+
+def _fact_mask(e, pol=True):
+    """Worlds over the atoms A (connection uses TLS), B (context container present), U (use_ssl flag) - as a set of
+    (A, B, U) triples - in which fact e holds.  Sub-formulas about anything else do not constrain."""
+    import itertools
+    allw = set(itertools.product((False, True), repeat=3))
+
+    def ev(x):
+        if isinstance(x, ast.UnaryOp) and isinstance(x.op, ast.Not):
+            r = ev(x.operand)
+            return None if r is None else allw - r
+        if isinstance(x, ast.BoolOp):
+            rs = [ev(v) for v in x.values]
+            if isinstance(x.op, ast.And):
+                out = set(allw)
+                for r in rs:
+                    if r is not None:
+                        out &= r
+                return out
+            if any(r is None for r in rs):
+                return None
+            out = set()
+            for r in rs:
+                out |= r
+            return out
+        from engine.cfg import canon_lit
+        t, p = canon_lit(unparse(x), True)
+        hit = TLS_ATOMS.get(t)
+        if hit is None:
+            return None
+        var, inverted = hit
+        i = 'ABU'.index(var)
+        want = p != inverted
+        return {w for w in allw if w[i] == want}
+    r = ev(e)
+    if r is None:
+        return allw
+    return r if pol else allw - r
+
+
+def _context_cases(g, node, expr, attr, off):
+    """Every value expr can take at node is the container's <attr>, or None - and None only in worlds allowed by `off`
+    (a predicate on (A, B, U)); the context is passed in at least one case.  The facts of each case (branch facts, tests of
+    conditional expressions, facts at the definitions of locals, all with aliases written out) are turned into the set of
+    worlds they allow, so `if a and b`, nested ifs, guard clauses and conditional expressions give the same verdict."""
+    import itertools
     some, bad, wit = False, [], []
     for facts, leaf in g.value_cases(node, expr):
         t = unparse(leaf)
-        wit.append(f'{[f for f in facts.resolved]} => {t}')
+        worlds = set(itertools.product((False, True), repeat=3))
+        for txt, pol in list(facts) + list(facts.resolved):
+            try:
+                worlds &= _fact_mask(ast.parse(txt, mode='eval').body, pol)
+            except SyntaxError:
+                continue
+        wit.append(f'{list(facts.resolved)} => {t}')
+        if not worlds:
+            continue  # infeasible combination of definitions
         if t == 'None':
-            if not any(f in facts for f in allowed_off):
+            if not all(off(*w) for w in worlds):
                 bad.append(t)
         elif t == f'self._ssl_context_container.{attr}':
             some = True
@@ -60,11 +112,20 @@ def _context_cases(g, node, expr, attr, allowed_off):
     return some and not bad, wit
 
 
-def _context_argument(g, kw, attr, allowed_off):
+def _context_argument(g, kw, attr, off):
     sites = [(n, k.value) for n in g.real_nodes() for c in n.calls() for k in c.keywords if k.arg == kw]
     if len(sites) != 1:
         return False, f'{len(sites)} calls with a {kw} argument'
-    return _context_cases(g, sites[0][0], sites[0][1], attr, allowed_off)
+    return _context_cases(g, sites[0][0], sites[0][1], attr, off)
+
+
+def _edge_facts(b):
+    """The literals that hold on branch edge b itself."""
+    from engine.cfg import Facts, _atoms
+    f = Facts()
+    _atoms(b.test, b.label, f)
+    f.resolved = list(f)
+    return f
 
 
 def plaintext_sites(repo):
@@ -118,6 +179,19 @@ def run(ctx):  # noqa: C901, PLR0912, PLR0915
         if plain:
             n_plain += 1
         ok = _tls_fact(facts, polarity_true=not plain)
+        par = getattr(node, '_parent', None)
+        if not ok and plain and isinstance(par, ast.Assign) and len(par.targets) == 1 and isinstance(par.targets[0], ast.Name):
+            # "default, then override": `scheme = 'http'` unconditionally, `scheme = 'https'` under the TLS test.  The plaintext
+            # default may reach a use only along paths through an edge on which the TLS context is known to be absent.
+            var = par.targets[0].id
+            other_defs = [d for d in g.real_nodes() if d is not holder and any(
+                isinstance(x, ast.Name) and x.id == var and isinstance(x.ctx, ast.Store) for x in d.walk())]
+            no_tls_edges = [b for b in g.nodes if b.kind == 'branch' and b.label in (True, False)
+                            and _tls_fact(_edge_facts(b), polarity_true=False)]
+            uses = [u for u in g.real_nodes() if u is not holder and any(
+                isinstance(x, ast.Name) and x.id == var and isinstance(x.ctx, ast.Load) for x in u.walk())]
+            ok = bool(uses) and bool(other_defs) and not any(
+                g.path_exists(holder, u, avoid=other_defs + no_tls_edges, normal_only=True) for u in uses)
         ctx.ob('C19.R1', f'{fi.name}: {kind} literal', ok,
                f'{fi.cls.name if fi.cls else ""}.{fi.name}: "{kind}" is used only when the TLS context is '
                f'{"absent" if plain else "present"}' if ok else
@@ -154,7 +228,7 @@ def run(ctx):  # noqa: C901, PLR0912, PLR0915
 
     # ------------------------------------------------------------------ R2
     pm = repo.func(f'{PV}._mk_soap_client')
-    ok, wit = _context_argument(cfg_of(pm), 'ssl_context', 'client_context', NO_CONTAINER)
+    ok, wit = _context_argument(cfg_of(pm), 'ssl_context', 'client_context', lambda a, b, u: not b)
     ctx.ob('C19.R2', 'provider clients', ok,
            'every SOAP client of the provider (notifications) gets the client context when a context container is set',
            fi=pm, witness=wit)
@@ -163,14 +237,23 @@ def run(ctx):  # noqa: C901, PLR0912, PLR0915
     ctx.ob('C19.R2', 'single provider client factory', set(callers) == {pm.qual},
            'provider SOAP clients are created only in _mk_soap_client', where=PV, witness=sorted(set(callers)))
     cm = repo.func(f'{CO}._mk_soap_client')
-    ok, wit = _context_argument(cfg_of(cm), 'ssl_context', 'client_context', [('use_ssl', False)])
+    ok, wit = _context_argument(cfg_of(cm), 'ssl_context', 'client_context', lambda a, b, u: not u)
     ctx.ob('C19.R2', 'consumer clients', ok, 'consumer SOAP clients get the client context whenever use_ssl is set', fi=cm,
            witness=wit)
     gs = repo.func(f'{CO}.get_soap_client')
-    src = unparse(gs.node)
-    us = [n for n in walk_no_nested(gs.node) if isinstance(n, ast.Assign) and unparse(n.targets[0]) == 'use_ssl']
-    ok = len(us) == 1 and unparse(us[0].value) == 'self.is_ssl_connection is not False' and \
-        'self._mk_soap_client(use_ssl, _url.netloc)' in src and 'key = (use_ssl, _url.netloc)' in src
+    gg = cfg_of(gs)
+    # symbolic expansion (locals written out in terms of self / parameters): names of temporaries do not matter
+    mkc = gg.nodes_calling('_mk_soap_client')
+    flag = 'self.is_ssl_connection is not False'
+    ok = len(mkc) == 1 and bool(mkc[0][1].args) and gg.symbolic_text(mkc[0][0], mkc[0][1].args[0]) == flag
+    # the client pool is keyed by that flag too (a TLS client is never handed out for a plaintext decision and vice versa)
+    keys = [gg.symbolic(n, n.stmt.targets[0].slice) for n in gg.real_nodes() if n.kind == 'stmt'
+            and isinstance(n.stmt, ast.Assign) and isinstance(n.stmt.targets[0], ast.Subscript)
+            and unparse(n.stmt.targets[0].value) == 'self._soap_clients']
+    keys += [gg.symbolic(n, c.args[0]) for n, c in gg.nodes_calling('get') if unparse(c.func.value) == 'self._soap_clients'
+             and c.args]
+    ok = ok and len(keys) >= 2 and all(isinstance(k, ast.Tuple) and k.elts and unparse(k.elts[0]) == flag for k in keys) and \
+        len({unparse(k) for k in keys}) == 1
     ctx.ob('C19.R2', 'use_ssl from the connection state', ok,
            'use_ssl is true unless plaintext was decided (never for an enforced TLS consumer), independent of the scheme '
            'of the address', fi=gs)
@@ -253,7 +336,9 @@ def run(ctx):  # noqa: C901, PLR0912, PLR0915
             txt = unparse(arg) if arg is not None else ''
             g = cfg_of(fi)
             ok, wit = (False, 'no ssl context argument') if arg is None else \
-                _context_cases(g, g.holder(c), arg, 'server_context', NO_CONTAINER + [('self.is_ssl_connection', False)])
+                _context_cases(g, g.holder(c), arg, 'server_context',
+                               (lambda a, b, u: not b) if fi.module.name.startswith('sdc11073.provider') else
+                               (lambda a, b, u: not (a and b)))
             ctx.ob('C19.R4', f'{fi.name}: server context', ok,
                    f'{fi.cls.name}.{fi.name}: the HTTP server gets the server context whenever TLS is configured / in use',
                    fi=fi, node=c, witness={'argument': txt, 'cases': wit})
@@ -264,7 +349,8 @@ def run(ctx):  # noqa: C901, PLR0912, PLR0915
     ok = bool(wraps) and all(('self._ssl_context', True) in g.facts_at(n) for n, _ in wraps) and \
         all(any(k.arg == 'server_side' and isinstance(k.value, ast.Constant) and k.value.value is True for k in c.keywords)
             for _, c in wraps)
-    https_url = [n for n in g.real_nodes() if "f'https://" in n.text()]
+    https_url = [n for n in g.real_nodes() if any(isinstance(x, ast.Constant) and isinstance(x.value, str)
+                                                   and x.value.startswith('https') for x in n.walk())]
     ok = ok and bool(https_url) and all(any(g.dominates(w, u) for w, _ in wraps) for u in https_url)
     ctx.ob('C19.R4', 'server wraps its socket', ok,
            'with a context the listening socket is wrapped (server side) before the https base url is published', fi=hr)
